@@ -4,6 +4,7 @@ H = "sharepoint2text/parsing/extractors/html_extractor.py"
 EP = "sharepoint2text/parsing/extractors/epub_extractor.py"
 MH = "sharepoint2text/parsing/extractors/mhtml_extractor.py"
 
+HT = "sharepoint2text/parsing/extractors/html_extractor.py"
 MUTANTS = [
     M("html-every-start-tag-deepens", H, "        if self.skip_depth > 0:\n            if tag == self._skip_tag:\n                self.skip_depth += 1\n            return\n\n        if tag in REMOVE_TAGS:", "        if self.skip_depth > 0:\n            self.skip_depth += 1\n            return\n\n        if tag in REMOVE_TAGS:", "C17-SKIP"),
     M("html-any-end-tag-closes", H, "        if self.skip_depth > 0:\n            if tag == self._skip_tag:\n                self.skip_depth -= 1\n                if self.skip_depth == 0:\n                    self._skip_tag = None\n            return", "        if self.skip_depth > 0:\n            self.skip_depth -= 1\n            if self.skip_depth == 0:\n                self._skip_tag = None\n            return", "C17-SKIP"),
@@ -14,11 +15,14 @@ MUTANTS = [
     M("epub-every-start-tag-deepens", EP, "        if self.skip_depth > 0:\n            if tag == self._skip_tag:\n                self.skip_depth += 1\n            return\n\n        if tag in REMOVE_TAGS:", "        if self.skip_depth > 0:\n            self.skip_depth += 1\n            return\n\n        if tag in REMOVE_TAGS:", "C17-SKIP"),
     M("epub-cdata-kept-while-skipping", EP, "    def handle_data(self, data: str):", "    def unknown_decl(self, data: str):\n        if data.startswith(\"CDATA[\"):\n            self.text_parts.append(data[len(\"CDATA[\") :])\n\n    def handle_data(self, data: str):", "C17-N4"),
     M("mhtml-comments-stripped-by-regex", MH, "        html_buffer = io.BytesIO(html_content)", "        html_content = re.sub(rb\"<!--.*?-->\", b\"\", html_content, flags=re.DOTALL)\n        html_buffer = io.BytesIO(html_content)", "C17-N5"),
+    M("parser-close-called", HT, "            rest = parser.rawdata\n", "            parser.close()\n            rest = parser.rawdata\n", "C17-EOF"),
+    M("flush-unguarded", HT, "            if rest and \"<\" not in rest:\n", "            if rest:\n", "C17-EOF"),
 ]
 
 TWINS = [
     T("html-skip-test-reordered", H, "        if self.skip_depth > 0:\n            if tag == self._skip_tag:\n                self.skip_depth += 1\n            return\n\n        if tag in REMOVE_TAGS:", "        if self.skip_depth > 0:\n            if self._skip_tag == tag:\n                self.skip_depth = self.skip_depth + 1\n            return\n\n        if tag in REMOVE_TAGS:"),
     T("html-comment-handler-documented", H, "    def handle_comment(self, data: str):\n        # Ignore comments\n        pass", "    def handle_comment(self, data: str):\n        \"\"\"Comments never reach the tree.\"\"\"\n        return None"),
+    T("flush-guard-nested", HT, "            if rest and \"<\" not in rest:\n                parser.handle_data(unescape(rest))\n", "            if rest:\n                if \"<\" not in rest:\n                    parser.handle_data(unescape(rest))\n"),
 ]
 
 # --- seeded changes kept under /verif/seeded (sub-agents saw only the property text); each must be reported by the named rule
@@ -30,5 +34,7 @@ SEEDED = [
     ("C17-3", "C17-N5"),
     ("C17-4", "C17-SKIP"),
     ("C17-5", "C17-SKIP"),
+    ("C17-6", "C17-EOF"),
+    ("C17-7", "C17-N4"),
 ]
 MUTANTS = list(MUTANTS) + [_P("seed-" + sid, _os.path.join(_SEEDS, sid, "patch.diff"), rule) for sid, rule in SEEDED if _os.path.exists(_os.path.join(_SEEDS, sid, "patch.diff"))]
